@@ -432,6 +432,8 @@ var optKinds = []struct {
 	{"layer-rm-index", 5}, {"layer-strip-file", 7}, {"layer-time", 5}, {"layer-time-label", 1}, {"layer-time-max", 2},
 	{"manifest-digest-algo", 2}, {"to-docker", 4}, {"to-oci", 4}, {"to-oci-referrers", 3}, {"rebase", 3}, {"rebase-refs", 3},
 	{"volume-add", 2}, {"volume-rm", 2},
+	// compositions regctl builds for --time / --time-max (WithConfigTimestamp + WithLayerTimestamp with one OptTime)
+	{"time", 3}, {"time-max", 1},
 }
 
 // layerKinds are the options that touch layers or media types (non-trivial rule).
@@ -439,7 +441,7 @@ var layerKinds = map[string]bool{
 	"layer-add": true, "layer-compress": true, "layer-digest-algo": true, "layer-reproducible": true, "layer-rm-created-by": true,
 	"layer-rm-index": true, "layer-strip-file": true, "layer-time": true, "layer-time-label": true, "layer-time-max": true,
 	"file-tar-time": true, "file-tar-time-max": true, "to-docker": true, "to-oci": true, "to-oci-referrers": true, "rebase": true,
-	"rebase-refs": true, "digest-algo": true, "external-urls-rm": true, "data": true,
+	"rebase-refs": true, "digest-algo": true, "external-urls-rm": true, "data": true, "time": true, "time-max": true,
 }
 
 // uniformInt draws an (almost) uniform integer in [0,n) from fair coin flips;
@@ -598,11 +600,11 @@ func genOpt(t *rapid.T, c *Case, label string) OptSpec {
 		if noop {
 			o.Plat = "linux/" + im0.Arch
 		}
-	case "config-time", "layer-time":
+	case "config-time", "layer-time", "time":
 		genOptTime(t, c, label, &o)
 	case "config-time-label", "layer-time-label":
 		o.FromLabel = rapid.SampledFrom([]string{labelTimeKey, labelTimeKey, labelTimeKey, "missing"}).Draw(t, label+"_fromlabel")
-	case "config-time-max", "layer-time-max":
+	case "config-time-max", "layer-time-max", "time-max":
 		o.Set = rapid.SampledFrom(optTimes).Draw(t, label+"_set")
 		if noop {
 			o.Set = optTimes[len(optTimes)-1]
